@@ -346,6 +346,24 @@ func udistReplay(in io.Reader, raw bool, args []string) (*Summary, error) {
 					}
 				}
 			}
+			// far outside the range, up to the largest floats and the infinities: CDF is 0 below and 1 above, PMF is 0
+			for _, u := range []float64{1e6, 4.5e18, math.Ldexp(1, 62), math.Ldexp(1, 63), 1e19, 1e30, 1e300, math.MaxFloat64, math.Inf(1)} {
+				sum.Checks++
+				if float64(mc.N1*mc.N2) < u {
+					if g := d.CDF(u); g != 1 {
+						sum.viol("CDF-far", c, "T=%v: CDF(%v)=%v want 1", d.T, u, g)
+					}
+					if g := d.PMF(u); g != 0 {
+						sum.viol("PMF-far", c, "T=%v: PMF(%v)=%v want 0", d.T, u, g)
+					}
+				}
+				if g := d.CDF(-u); g != 0 {
+					sum.viol("CDF-far", c, "T=%v: CDF(%v)=%v want 0", d.T, -u, g)
+				}
+				if g := d.PMF(-u); g != 0 {
+					sum.viol("PMF-far", c, "T=%v: PMF(%v)=%v want 0", d.T, -u, g)
+				}
+			}
 			if !intsEq(d.T, mc.T) && d.T != nil {
 				sum.viol("argument-modified", c, "UDist.T changed")
 			}
@@ -368,6 +386,9 @@ type mwEvent struct {
 	TwoU   int64   `json:"twoU"`
 	P      sbig    `json:"p"`
 	ArgsOK int     `json:"argsok"`
+	Pd     fdy     `json:"pd"`  // P as an exact float image (the 18-digit fixed-point P cannot carry small tails)
+	Z      fdy     `json:"z"`   // continuity-corrected standard score of the normal approximation for this alternative
+	Phi    fdy     `json:"phi"` // Phi(z), evaluated here through Erfc
 	Seed   int64   `json:"seed"`
 	Idx    int     `json:"idx"`
 }
@@ -402,6 +423,7 @@ func mwCall(ev *mwEvent, x1, x2 []int64, f func(int64) float64, alt int, rng *ra
 	res, err := stats.MannWhitneyUTest(a, b, stats.LocationHypothesis(alt))
 	ev.X1, ev.X2, ev.Alt = x1, x2, alt
 	ev.P = sbig{0, []int{}}
+	ev.Pd, ev.Z, ev.Phi = mkfdy(0), mkfdy(0), mkfdy(0)
 	if oka() && okb() {
 		ev.ArgsOK = 1
 	}
@@ -420,6 +442,45 @@ func mwCall(ev *mwEvent, x1, x2 []int64, f func(int64) float64, alt int, rng *ra
 			ev.TwoU = -1 // U is not a half-integer: no action explains it
 		}
 		ev.P = p18(res.P)
+		ev.Pd = mkfdy(res.P)
+		// the normal approximation's standard score from exact integers: in units of 2U,
+		// less: num = 2U + 1 - n1 n2, greater: 2U - 1 - n1 n2, two-sided: -max(|2U - n1 n2| - 1, 0);  z = num / (2 sigma)
+		n1, n2 := int64(res.N1), int64(res.N2)
+		N := n1 + n2
+		cnt := map[int64]int64{}
+		for _, v := range x1 {
+			cnt[v]++
+		}
+		for _, v := range x2 {
+			cnt[v]++
+		}
+		var ts int64
+		for _, t := range cnt {
+			ts += t*t*t - t
+		}
+		d := ev.TwoU - n1*n2
+		var num int64
+		switch alt {
+		case -1:
+			num = d + 1
+		case 1:
+			num = d - 1
+		default:
+			if d < 0 {
+				d = -d
+			}
+			num = -(d - 1)
+			if num > 0 {
+				num = 0
+			}
+		}
+		// 4 sigma^2 = n1 n2 ((N+1) N (N-1) - ts) / (3 N (N-1))
+		four := new(big.Rat).SetFrac(new(big.Int).Mul(big.NewInt(n1*n2), big.NewInt((N+1)*N*(N-1)-ts)), big.NewInt(3*N*(N-1)))
+		if four.Sign() > 0 {
+			f4, _ := four.Float64()
+			z := float64(num) / math.Sqrt(f4)
+			ev.Z, ev.Phi = mkfdy(z), mkfdy(0.5*math.Erfc(-z/math.Sqrt2))
+		}
 	}
 }
 
@@ -438,12 +499,12 @@ func mwRecord(out io.Writer, args []string) error {
 		}
 		rng := rand.New(rand.NewSource(*rf.seed*1000003 + int64(idx)))
 		stats.MannWhitneyExactLimit, stats.MannWhitneyTiesExactLimit = 50, 25
-		enc.Encode(mwEvent{Op: "Reset", Seed: *rf.seed, Idx: idx, P: sbig{0, []int{}}, X1: []int64{}, X2: []int64{}})
+		enc.Encode(mwEvent{Op: "Reset", Seed: *rf.seed, Idx: idx, P: sbig{0, []int{}}, X1: []int64{}, X2: []int64{}, Pd: mkfdy(0), Z: mkfdy(0), Phi: mkfdy(0)})
 		for k := 0; k < *calls; k++ {
 			if rng.Intn(3) == 0 {
 				c := limitCfgs[rng.Intn(len(limitCfgs))]
 				stats.MannWhitneyExactLimit, stats.MannWhitneyTiesExactLimit = c[0], c[1]
-				enc.Encode(mwEvent{Op: "SetLimits", E: c[0], T: c[1], Seed: *rf.seed, Idx: idx, P: sbig{0, []int{}}, X1: []int64{}, X2: []int64{}})
+				enc.Encode(mwEvent{Op: "SetLimits", E: c[0], T: c[1], Seed: *rf.seed, Idx: idx, P: sbig{0, []int{}}, X1: []int64{}, X2: []int64{}, Pd: mkfdy(0), Z: mkfdy(0), Phi: mkfdy(0)})
 			}
 			// sizes: mostly small (exactly checkable), sometimes around the limits, sometimes large
 			var n1, n2 int
@@ -489,8 +550,17 @@ func mwRecord(out io.Writer, args []string) error {
 			for i := range x1 {
 				x1[i] = rng.Int63n(span) - span/2
 			}
+			var shift int64 // sometimes clearly separated samples: the small tails of the approximation
+			switch rng.Intn(6) {
+			case 0:
+				shift = span
+			case 1:
+				shift = span/2 + 1
+			case 2:
+				shift = -span
+			}
 			for i := range x2 {
-				x2[i] = rng.Int63n(span) - span/2 + int64(rng.Intn(2))
+				x2[i] = rng.Int63n(span) - span/2 + int64(rng.Intn(2)) + shift
 			}
 			alt := rng.Intn(3) - 1
 			ev := mwEvent{Op: "Test", Seed: *rf.seed, Idx: idx}
